@@ -54,6 +54,7 @@ class Chooser:
         self.cps = []  # (quiescent, [labels], [kinds])
         self.last_dev = max(self.dev) if self.dev else -1
         self.trace = None  # list to append (cp index, chosen label) when tracing
+        self.sched = 0  # running hash of the schedule actually taken (every chosen label, forced ones included)
 
     def remaining(self, kind):
         best = 0
@@ -73,6 +74,7 @@ class Chooser:
         if len(alts) == 1:
             if self.trace is not None:
                 self.trace.append((None, alts[0].label))
+            self.sched = hash((self.sched, alts[0].label))
             return 0
         i = len(self.cps)
         self.cps.append((quiescent, [a.label for a in alts], [a.kind for a in alts]))
@@ -86,6 +88,7 @@ class Chooser:
             self.spent[self.cost_kind(alts[j], quiescent)] += 1
         if self.trace is not None:
             self.trace.append((i, alts[j].label))
+        self.sched = hash((self.sched, alts[j].label, quiescent))
         return j
 
     def children(self):
@@ -404,6 +407,7 @@ class Result:
         self.capped = False
         self.cps = 0
         self.transitions = 0
+        self.sched = 0
         self.digests = set()
         self.children = []
         self.trace = None
@@ -430,6 +434,7 @@ def execute(scn_factory, params, deviations, bounds, trace=False):
     res.capped = world.capped
     res.cps = len(chooser.cps)
     res.transitions = world.transitions
+    res.sched = chooser.sched
     res.digests = world.digests
     res.children = chooser.children()
     if getattr(world, "livelock", False):
@@ -467,7 +472,8 @@ def _explore_task(task):
         acc.count("choice_points", res.cps)
         acc.sets.setdefault("states", set()).update(res.digests)
         acc.distinct("outcomes", res.outcome)
-        acc.count("distinct_executions")  # the DFS never visits a deviation list twice
+        if d:  # non-trivial = departs from the canonical schedule; distinct = distinct event schedule actually executed
+            acc.sets.setdefault("distinct", set()).add(hash((name, res.sched)) & 0xFFFFFFFFFFFFFFFF)
         acc.count("exec:" + name)
         if res.capped:
             acc.cap(f"step cap hit in scenario {name}")
